@@ -332,49 +332,63 @@ func (store *fileStore) SetCreationTime(_ time.Time) {
 }
 
 func (store *fileStore) SaveMessage(seqNum int, msg []byte) error {
+	_, err := store.saveMessage(seqNum, msg)
+	return err
+}
+
+// saveMessage appends the message and its index line; headerEnd is where the index line begins.
+func (store *fileStore) saveMessage(seqNum int, msg []byte) (headerEnd int64, err error) {
 	store.fileMu.Lock()
 	defer store.fileMu.Unlock()
 	offset, err := store.bodyFile.Seek(0, io.SeekEnd)
 	if err != nil {
-		return fmt.Errorf("unable to seek to end of file: %s: %s", store.bodyFname, err.Error())
+		return 0, fmt.Errorf("unable to seek to end of file: %s: %s", store.bodyFname, err.Error())
 	}
-	headerEnd, err := store.headerFile.Seek(0, io.SeekEnd)
+	headerEnd, err = store.headerFile.Seek(0, io.SeekEnd)
 	if err != nil {
-		return fmt.Errorf("unable to seek to end of file: %s: %s", store.headerFname, err.Error())
+		return 0, fmt.Errorf("unable to seek to end of file: %s: %s", store.headerFname, err.Error())
 	}
 
 	// The body goes first (and is flushed first): an index line must never point at
 	// bytes that are not there, or a later message would be read in their place.
 	if _, err := store.bodyFile.Write(msg); err != nil {
-		return fmt.Errorf("unable to write to file: %s: %s", store.bodyFname, err.Error())
+		return 0, fmt.Errorf("unable to write to file: %s: %s", store.bodyFname, err.Error())
 	}
 	if store.fileSync {
 		if err := store.bodyFile.Sync(); err != nil {
-			return fmt.Errorf("unable to flush file: %s: %s", store.bodyFname, err.Error())
+			return 0, fmt.Errorf("unable to flush file: %s: %s", store.bodyFname, err.Error())
 		}
 	}
 
 	if _, err := fmt.Fprintf(store.headerFile, "%d,%d,%d\n", seqNum, offset, len(msg)); err != nil {
 		// Leave no part of the index line behind: the next line would be glued to it.
 		_ = store.headerFile.Truncate(headerEnd)
-		return fmt.Errorf("unable to write to file: %s: %s", store.headerFname, err.Error())
+		return 0, fmt.Errorf("unable to write to file: %s: %s", store.headerFname, err.Error())
 	}
 	if store.fileSync {
 		if err := store.headerFile.Sync(); err != nil {
 			// The caller is told the message was not saved, so it must not stay in the index.
 			_ = store.headerFile.Truncate(headerEnd)
-			return fmt.Errorf("unable to flush file: %s: %s", store.headerFname, err.Error())
+			return 0, fmt.Errorf("unable to flush file: %s: %s", store.headerFname, err.Error())
 		}
 	}
-	return nil
+	return headerEnd, nil
 }
 
 func (store *fileStore) SaveMessageAndIncrNextSenderMsgSeqNum(seqNum int, msg []byte) error {
-	err := store.SaveMessage(seqNum, msg)
+	headerEnd, err := store.saveMessage(seqNum, msg)
 	if err != nil {
 		return err
 	}
-	return store.IncrNextSenderMsgSeqNum()
+	if err := store.IncrNextSenderMsgSeqNum(); err != nil {
+		// The number has not been consumed and will be given to the next message: this one must not
+		// stay in the index under it.
+		store.fileMu.Lock()
+		_ = store.headerFile.Truncate(headerEnd)
+		store.fileMu.Unlock()
+		return err
+	}
+	return nil
 }
 
 func (store *fileStore) syncBodyAndHeaderFilesLocked() error {
